@@ -39,6 +39,7 @@ a_cscale = z3.Function("a_cscale", R, R, Arr, Arr)                # (re + i im) 
 a_slice = z3.Function("a_slice", Arr, I, I, Arr)                  # a[lo:hi], 0 <= lo <= hi <= len
 a_diff = z3.Function("a_diff", Arr, Arr)                          # np.diff
 a_irfft = z3.Function("a_irfft", Arr, Arr)
+a_stride = z3.Function("a_stride", Arr, I, Arr)                   # a[::k], k >= 1
 a_rfftfreq = z3.Function("a_rfftfreq", I, R, Arr)
 
 
@@ -94,6 +95,15 @@ def laws():
     fa([c, d, e, a], a_cscale(c, d, a_scale(e, a)) == a_scale(e, a_cscale(c, d, a)), [a_cscale(c, d, a_scale(e, a))])
     fa([a, n, k], z3.Implies(z3.And(0 <= n, n <= k, k <= alen(a)), alen(a_slice(a, n, k)) == k - n), [a_slice(a, n, k)])
     fa([c, a, n, k], a_slice(a_scale(c, a), n, k) == a_scale(c, a_slice(a, n, k)), [a_slice(a_scale(c, a), n, k)])
+    fa([a, k], z3.Implies(k >= 1, z3.And(alen(a_stride(a, k)) * k >= alen(a), (alen(a_stride(a, k)) - 1) * k < alen(a),
+                                         alen(a_stride(a, k)) >= 0)), [a_stride(a, k)])
+    fa([a, k], z3.Implies(k == 1, a_stride(a, k) == a), [a_stride(a, k)])
+    fa([c, a, k], a_stride(a_scale(c, a), k) == a_scale(c, a_stride(a, k)), [a_stride(a_scale(c, a), k)])
+    fa([a, k, i], z3.Implies(z3.And(k >= 1, i >= 0, i * k < alen(a)), a_at(a_stride(a, k), i) == a_at(a, i * k)),
+       [a_at(a_stride(a, k), i)])
+    fa([a, n, k, i], z3.Implies(z3.And(0 <= n, n <= k, k <= alen(a), i >= 0, i < k - n), a_at(a_slice(a, n, k), i) == a_at(a, n + i)),
+       [a_at(a_slice(a, n, k), i)])
+    fa([a, i], z3.Implies(z3.And(i >= 0, i + 1 < alen(a)), a_at(a_diff(a), i) == a_at(a, i + 1) - a_at(a, i)), [a_at(a_diff(a), i)])
     fa([a], z3.Implies(alen(a) >= 1, alen(a_diff(a)) == alen(a) - 1), [a_diff(a)])
     fa([c, a], a_diff(a_scale(c, a)) == a_scale(c, a_diff(a)), [a_diff(a_scale(c, a))])
     fa([c, a, k], a_roll(a_scale(c, a), k) == a_scale(c, a_roll(a, k)), [a_roll(a_scale(c, a), k)])
@@ -323,6 +333,11 @@ def getitem(ctx, o, idx):
         hi = lift(idx.hi)
         if ctx.branch(z3.And(hi >= 0, hi <= alen(o.term))):
             return AbsArr(a_take(o.term, hi))
+    if isinstance(idx, SliceVal) and idx.lo is None and idx.hi is None and idx.step is not None:
+        k = lift(idx.step)
+        if not ctx.branch(k >= 1):
+            raise Unsupported("abstract array slice with a non-positive step")
+        return AbsArr(a_stride(o.term, k))
     if isinstance(idx, SliceVal) and idx.step is None:
         n = alen(o.term)
 
@@ -492,6 +507,7 @@ def numeric_check(trials=60, seed=1):
         "a_cscale": lambda c, d, a: (c + 1j * d) * a,
         "a_slice": lambda a, lo, hi: a[max(0, lo):max(0, hi)] if lo <= hi else a[:0],
         "a_diff": lambda a: np.diff(a) if len(a) else a,
+        "a_stride": lambda a, k: a[::k] if k >= 1 else a,
         "a_irfft": lambda a: np.fft.irfft(a) if len(a) > 1 else np.zeros(0),
         "a_delay": lambda k, n: np.exp(-2j * np.pi * k * np.arange(max(n, 0)) / n) if n > 0 else np.zeros(0),
     }
